@@ -15,6 +15,7 @@ import tempfile
 import urllib.parse
 
 import common
+import pubscan
 from common import Check, sx
 
 from vinegar.request_handler import file as F
@@ -238,6 +239,19 @@ class World:
             return real_open(path, *a, **k)
         self.rec_open = rec_open
         F.open = rec_open                     # module-global lookup precedes builtins
+        # the public template-engine factory hands out the recording fake for the engine name "c05-fake"
+        import vinegar.template as VT
+        self._real_factory = VT.get_template_engine
+
+        def factory(name, config=None, *a, **k):
+            if name == "c05-fake":
+                return FakeEngine(rec_open)
+            return self._real_factory(name, config, *a, **k)
+        VT.get_template_engine = factory
+        self._patched_f = "get_template_engine" in F.__dict__
+        if self._patched_f:
+            self._real_f_factory = F.get_template_engine
+            F.get_template_engine = factory
 
     def prep_store(self):
         """a second data store object on the same file, used to put a fresh value in place before a request"""
@@ -253,6 +267,10 @@ class World:
             except Exception:   # noqa: BLE001
                 pass
             self.prep = None
+        import vinegar.template as VT
+        VT.get_template_engine = self._real_factory
+        if self._patched_f:
+            F.get_template_engine = self._real_f_factory
         if "open" in F.__dict__:
             del F.open
         shutil.rmtree(self.dir, ignore_errors=True)
@@ -819,6 +837,8 @@ class C05(Check):
             cfg["client_address_key"] = c.get("keypath", "net:ip")
         if c["entries"]:
             cfg["client_address_list"] = CONTAINERS[c.get("container", "list")](c["entries"])
+        if c["template"]:
+            cfg["template"] = "c05-fake"
         return cfg
 
     def make_file(self, w, c, ds, kind=None):
@@ -829,8 +849,9 @@ class C05(Check):
         try:
             h = F.HttpFileRequestHandler(cfg) if kind == "http" else F.TftpFileRequestHandler(cfg)
             h.set_data_source(ds)
-            if c["template"]:
-                h._template_engine = FakeEngine(w.rec_open)
+            # c["template"]: the handler was built with the public option template="c05-fake"; the public factory
+            # vinegar.template.get_template_engine (patched in World, also where file.py imported it by name)
+            # hands out the recording fake engine
             uri = "/f/abc" if c["lookup"] else ("/f" if fs in ("rootdir", "nopath") else "/f/x")
             uri += {"rootdir": "/file.txt", "nopath": "/a/./b"}.get(fs, "")
             ctx = h.prepare_context(uri)
@@ -887,7 +908,10 @@ class C05(Check):
         h = U.HttpSQLiteUpdateRequestHandler(cfg)
         h.set_data_source(ds)
         if c["store_fault"]:
-            h._data_store = FaultyStore(h._data_store)
+            # fault injection: the handler's data store object, found by TYPE, is wrapped
+            from vinegar.utils.sqlite_store import DataStore
+            name, real = pubscan.attr_of_type(h, DataStore, "sqlite_update handler")
+            setattr(h, name, FaultyStore(real))
         return h
 
     def update_request(self, w, h, c, client, system, method=None, bad_body=False):
@@ -1029,7 +1053,7 @@ class C05(Check):
                     srv = TS.TftpServer([h], "::", common.free_udp_port(), default_timeout=1.0, max_retries=0)   # dual stack: the client is ::ffff:127.0.0.1
                     srv.start()
                     try:
-                        port = srv._socket.getsockname()[1]
+                        port = pubscan.udp_socket(srv).getsockname()[1]
                         replies = {}
                         for pth in paths:
                             sk = socket.socket(socket.AF_INET, socket.SOCK_DGRAM)
@@ -1067,7 +1091,7 @@ class C05(Check):
                     srv = HS.HttpServer([h], "::", 0)
                     srv.start()
                     try:
-                        port = srv._server.socket.getsockname()[1]
+                        port = pubscan.base_server(srv).socket.getsockname()[1]
                         replies = {}
                         for pth in paths:
                             try:
